@@ -5,7 +5,7 @@
    Rust implementation equals dialect AsBuilt is decided by the correspondence check. *)
 From stdpp Require Import gmap.
 From Coq Require Import ZArith NArith.
-From RV Require Import Lib.Hex Model.Redis Proofs.RedisProofs.
+From RV Require Import Lib.Hex Model.Redis Proofs.RedisProofs Proofs.RedisNumProofs.
 Local Open Scope Z_scope.
 
 (* Every reachable state (any sequence of clock settings and commands, from the empty
@@ -112,6 +112,12 @@ Proof.
   intros. split; [apply incrby_exact_lemma|]. split; [apply incrby_error_iff_lemma | reflexivity].
 Qed.
 Print Assumptions C01_incrby_exact.
+
+(* What INCRBY/HINCRBY store can be read back: the decimal text of any i64 is a canonical
+   integer for string2ll, so a counter can be incremented again. *)
+Theorem C01_incr_result_reparses : forall z, in_i64 z = true -> parse_i64 (fmt_Z z) = Some z.
+Proof. exact parse_fmt_roundtrip_lemma. Qed.
+Print Assumptions C01_incr_result_reparses.
 
 (* The SET option table. *)
 Theorem C01_set_option_table : forall now v (oe : option (value * option N)),
